@@ -615,6 +615,7 @@ def claim_print_structure(cx, res, kf):
     res.absorb(eng)
     check_discipline(res, eng, terms, "Printer::print (list)")
     steps = ends = 0
+    prelude_reported = []
     NULL, CONS = VAL.index("Null"), VAL.index("Cons")
     for t in terms:
         st = t.state
@@ -622,6 +623,13 @@ def claim_print_structure(cx, res, kf):
         if t.kind == "PANIC" or not st.notes["in"]:
             continue
         evs = st.events[st.notes.get("events_at_header", 0):]
+        # base case: before the first cell exactly the list opener has been emitted
+        prelude = [e[1] for e in st.events[:st.notes.get("events_at_header", 0)] if e[0] in ("fcall", "emit", "emit_fmt", "bare_write")]
+        if prelude != ["begin_list"] and not prelude_reported:
+            prelude_reported.append(1)
+            v = {"what": "before the first list element the printer emits %r instead of just the list opener" % (prelude,), "replayed": None}
+            v.update(print_replay(res)(None) or {})
+            res.violations.append(v)
         nc = [e for e in evs if e[0] == "next_cell"]
         calls = [(e[1], e[2]) for e in evs if e[0] == "fcall"]
         names = [c[0] for c in calls]
